@@ -31,6 +31,7 @@ def nonzero_row(ctx, row):
 class LinearProx(SxContract):
     """linear_prox_grad(W, alpha): requires alpha >= 0; ensures per row the closed form of the group-lasso prox.
     structures: generic | zero_row (row 0 concrete zeros) | alpha0 (alpha == 0) | tie (||w|| == alpha exactly)"""
+    float_replay = True
     fn = "gemclus.sparse._prox_grad.linear_prox_grad"
 
     def __init__(self, d, h, structure="generic"):
@@ -83,6 +84,7 @@ class LinearProx(SxContract):
 class GroupLinearProx(SxContract):
     """group_linear_prox_grad(groups, W, alpha) == linear_prox_grad on each group flattened to one row,
     entries restored to their positions, for the given partition."""
+    float_replay = True
     fn = "gemclus.sparse._prox_grad.group_linear_prox_grad"
 
     def __init__(self, d, h, groups, zero_group=None, alpha0=False):
@@ -145,6 +147,7 @@ GroupLinearProx.native = _group_native
 class HierProx(SxContract):
     """mlp_prox_grad(v, u, alpha, M) for one feature (row): feasibility and the KKT certificate of specs/prox.py.
     requires alpha > 0, M > 0 (interior; alpha == 0 and M == 0 are the structures 'alpha0', 'M0'), v not all zero."""
+    float_replay = True
     fn = "gemclus.sparse._prox_grad.mlp_prox_grad"
     smt_timeout_ms = 30000
 
@@ -230,6 +233,7 @@ class HierProx(SxContract):
 
 class GroupHierProx(SxContract):
     """group_mlp_prox_grad(groups, W_skip, W1, alpha, M) == mlp_prox_grad on each group flattened to one row."""
+    float_replay = True
     fn = "gemclus.sparse._prox_grad.group_mlp_prox_grad"
 
     def __init__(self, d, k, h, groups):
